@@ -411,6 +411,11 @@ class Base(_BaseClass):
         some have no expectation like S or COMMENT, so simply return
         the current value of self.__expected
         """
+        if new is None:
+            # a caller without a ``new`` dict learns about unexpected
+            # tokens after the expected end from the log only
+            new = {}
+
         def ATKEYWORD(expected, seq, token, tokenizer=None):
             "default impl for unexpected @rule"
             if expected != 'EOF':
@@ -515,6 +520,11 @@ class Base2(Base, _NewBase):
         some have no expectation like S or COMMENT, so simply return
         the current value of self.__expected
         """
+        if new is None:
+            # a caller without a ``new`` dict learns about unexpected
+            # tokens after the expected end from the log only
+            new = {}
+
         def ATKEYWORD(expected, seq, token, tokenizer=None):
             "default impl for unexpected @rule"
             if expected != 'EOF':
